@@ -143,7 +143,8 @@ impl Sim {
             }
             Err(msg) => {
                 self.panics.push(msg.clone());
-                let rec = json!({"ev": "Panic", "a": {"during": ev, "args": args, "msg": msg}, "st": self.state(), "out": out});
+                let loc = crate::verif::client::LAST_PANIC_LOC.lock().map(|g| g.clone()).unwrap_or_default();
+                let rec = json!({"ev": "Panic", "a": {"during": ev, "args": args, "msg": msg, "loc": loc}, "st": self.state(), "out": out});
                 self.emit(rec);
                 false
             }
